@@ -75,7 +75,7 @@ def surf_sets(tier):
 def states(tier, seed):
     fam = seed % 3
     alphas = [0.0, 5.0, -3.0] if tier == "quick" else [0.0, 5.0, -3.0, 15.0, -15.0]
-    betas = [0.0, 4.0] if tier == "quick" else [0.0, 4.0, -10.0, 15.0]
+    betas = [0.0, 4.0, -6.0] if tier == "quick" else [0.0, 4.0, -10.0, 15.0]
     vr = [(10.0, 1.225), (248.0, 0.38)]
     st = []
     inadm = 0
